@@ -265,7 +265,7 @@ def check(run: lib.Run, audit: dict) -> int:
     run.assumptions = ["env builder modelled as: returns the request or raises"]
     if not audit["ok"]:
         raise lib.CheckError(f"Lean build/audit failed at {audit['stage']}: {audit.get('log') or audit.get('forbidden') or audit.get('bad_axioms')}")
-    run_cases(run, audit)
+    run_cases(run, audit, scale=run.boost)
     overlap_probes(run)
     violations = []
     if run.disagreements and not run.spec_failures:
